@@ -89,6 +89,14 @@ def execute(mod, case, log_on=False):
                 raise InvalidCase("np_err")
             _np.seterr(all=err_mode)
             sched.count("np_err:" + err_mode)
+            # so are NumPy's print options (np.set_printoptions): a notebook that shortens its output must not change results
+            pr_mode = (case.get("config") or {}).get("np_print") or ("default", "default", "terse")[(case.get("sched_seed", 0) >> 7) % 3]
+            if pr_mode not in ("default", "terse"):
+                raise InvalidCase("np_print")
+            _np.set_printoptions(edgeitems=3, threshold=1000, precision=8, linewidth=75, suppress=False, floatmode="maxprec")
+            if pr_mode == "terse":
+                _np.set_printoptions(threshold=5, edgeitems=1, precision=2, suppress=True, linewidth=40)
+            sched.count("np_print:" + pr_mode)
             # the property module works on a private copy: whatever the code under test does to data handed to it,
             # the case (= the replay file) stays what was generated, so a re-run is the same experiment
             stats = mod.run_case(copy.deepcopy(case), sched)
